@@ -26,6 +26,47 @@ pub enum H {
     Clone,
     /// Iterator::nth(k): skips k items and yields the next; may overshoot the end
     Nth(usize),
+    /// the items still to come, taken by internal iteration: 0 fold (collecting), 1 count, 2 last.
+    /// On a clone where the iterator can be cloned (the history continues), by value otherwise
+    /// (then it is the last call of the history)
+    Rest(u8),
+}
+
+/// what a `Rest` call observed
+#[derive(Debug, PartialEq)]
+pub enum RestObs<T> {
+    Items(Vec<T>),
+    Count(usize),
+    Last(Option<T>),
+}
+
+macro_rules! std_call {
+    ($cell:expr, $h:expr, $map:expr) => {{
+        let mut g = $cell.borrow_mut();
+        let it = g.as_mut().expect("iterator already consumed by value");
+        match $h {
+            H::Next => (Some(it.next().map($map)), None, None),
+            H::Nth(k) => (Some(it.nth(k).map($map)), None, None),
+            H::Len => (None, Some(it.len()), None),
+            H::Hint => (None, None, Some(it.size_hint())),
+            H::Clone | H::Rest(_) => (None, None, None),
+        }
+    }};
+}
+
+macro_rules! rest_by_value {
+    ($it:expr, $kind:expr, $map:expr, $bound:expr) => {{
+        let it = $it;
+        match $kind {
+            0 => RestObs::Items(it.fold(Vec::new(), |mut acc, x| {
+                assert!(acc.len() <= $bound, "fold visits more items than the array holds");
+                acc.push($map(x));
+                acc
+            })),
+            1 => RestObs::Count(it.count()),
+            _ => RestObs::Last(it.last().map($map)),
+        }
+    }};
 }
 
 #[derive(Clone, Debug, Serialize, Deserialize)]
@@ -103,6 +144,7 @@ fn gen_hist(rng: &mut Rng, n: usize, allow_clone: bool) -> Vec<H> {
     let mut h = vec![];
     let mut nexts = 0;
     let p_nth = *rng.pick(&[0u64, 0, 5, 15]);
+    let p_rest = *rng.pick(&[0u64, 0, 5, 15]);
     while nexts < total_next {
         if rng.below(100) < p_nth {
             // mostly short skips, now and then one that overshoots the end by far
@@ -113,6 +155,8 @@ fn gen_hist(rng: &mut Rng, n: usize, allow_clone: bool) -> Vec<H> {
             };
             h.push(H::Nth(k));
             nexts += k.min(total_next) + 1;
+        } else if allow_clone && rng.below(100) < p_rest {
+            h.push(H::Rest(rng.below(3) as u8));
         } else if rng.below(100) < p_other {
             h.push(match rng.below(if allow_clone { 5 } else { 4 }) {
                 0 | 1 => H::Len,
@@ -128,6 +172,13 @@ fn gen_hist(rng: &mut Rng, n: usize, allow_clone: bool) -> Vec<H> {
     h.push(H::Len);
     h.push(H::Hint);
     h.push(H::Next);
+    if !allow_clone && p_rest > 0 {
+        // by value: the last call of the history; half of the time from the middle of the sequence
+        if rng.chance(1, 2) {
+            h.truncate(rng.range(0, n.min(h.len())));
+        }
+        h.push(H::Rest(rng.below(3) as u8));
+    }
     h
 }
 
@@ -144,6 +195,7 @@ impl<'a> HistJudge<'a> {
         hist: &[H],
         expected: &[T],
         mut call: impl FnMut(H) -> Result<(Option<Option<T>>, Option<usize>, Option<(usize, Option<usize>)>), String>,
+        mut rest: impl FnMut(u8) -> Result<RestObs<T>, String>,
     ) {
         let n = expected.len();
         let mut p = 0usize;
@@ -153,6 +205,37 @@ impl<'a> HistJudge<'a> {
             self.out.steps += 1;
             if p >= n {
                 self.out.count("calls_past_exhaustion", 1);
+            }
+            if let H::Rest(kind) = h {
+                self.out.count("internal_iteration_calls", 1);
+                let remaining = &expected[p.min(n)..];
+                let want = match kind {
+                    0 => RestObs::Items(remaining.to_vec()),
+                    1 => RestObs::Count(remaining.len()),
+                    _ => RestObs::Last(remaining.last().cloned()),
+                };
+                let name = ["fold", "count", "last"][(*kind as usize).min(2)];
+                match rest(*kind) {
+                    Err(pmsg) => {
+                        self.out.violate(
+                            "iterator_panics",
+                            format!("C19 {} {name} {phase} panic {}", self.iter_name, panic_key(&pmsg)),
+                            format!("{} step {step} ({name}, {} items left): {pmsg}", self.detail, remaining.len()),
+                        );
+                        return;
+                    }
+                    Ok(got) => {
+                        if got != want {
+                            self.out.violate(
+                                "iterator_sequence",
+                                format!("C19 {} {name} {phase} differs from the items next() would yield", self.iter_name),
+                                format!("{} step {step}: after {p} items {name}: expected {want:?} got {got:?}", self.detail),
+                            );
+                            return;
+                        }
+                    }
+                }
+                continue;
             }
             let r = call(*h);
             let rem = n.saturating_sub(p);
@@ -209,7 +292,7 @@ impl<'a> HistJudge<'a> {
                                 return;
                             }
                         }
-                        H::Clone => {}
+                        H::Clone | H::Rest(_) => {}
                         H::Nth(k) => {
                             // model: skip k items (clamped at the end), then behave like next()
                             let at = p.saturating_add(*k);
@@ -415,21 +498,19 @@ impl Prop for C19 {
                     }
                 }
                 Op::Indices { hist } => {
-                    let mut it = array.iter_indices();
+                    let it = std::cell::RefCell::new(Some(array.iter_indices()));
                     let mut j = HistJudge {
                         out: &mut out,
                         iter_name: "iter_indices".into(),
                         detail: format!("shape {shape:?} iter_indices"),
                     };
-                    j.drive(hist, &model, |h| {
-                        guarded(|| match h {
-                            H::Next => (Some(it.next()), None, None),
-                            H::Nth(k) => (Some(it.nth(k)), None, None),
-                            H::Len => (None, Some(it.len()), None),
-                            H::Hint => (None, None, Some(it.size_hint())),
-                            H::Clone => (None, None, None),
-                        })
-                    });
+                    let map = |v: Vec<usize>| v;
+                    j.drive(
+                        hist,
+                        &model,
+                        |h| guarded(|| std_call!(it, h, map)),
+                        |kind| guarded(|| rest_by_value!(it.borrow_mut().take().expect("iterator already consumed by value"), kind, map, n + 1)),
+                    );
                     // bijection: indexing by the yielded index returns the element at that position
                     for (flat, idx) in model.iter().enumerate() {
                         out.evals += 1;
@@ -450,33 +531,21 @@ impl Prop for C19 {
                     let expected: Vec<Vec<f64>> = (0..shape[*axis])
                         .map(|pos| model_view(shape, *axis, pos).into_iter().map(|f| f as f64).collect())
                         .collect();
-                    let mut it = array.iter_axis(Axis(*axis));
+                    let it = std::cell::RefCell::new(Some(array.iter_axis(Axis(*axis))));
                     let mut j = HistJudge {
                         out: &mut out,
                         iter_name: "iter_axis".into(),
                         detail: format!("shape {shape:?} iter_axis({axis})"),
                     };
-                    j.drive(hist, &expected, |h| {
-                        guarded(|| match h {
-                            H::Next => (
-                                Some(it.next().map(|v| {
-                                    // collect at most the expected number of elements (+1) so that a
-                                    // non-terminating view iterator cannot hang the check
-                                    v.iter().take(n + 1).copied().collect::<Vec<f64>>()
-                                })),
-                                None,
-                                None,
-                            ),
-                            H::Nth(k) => (
-                                Some(it.nth(k).map(|v| v.iter().take(n + 1).copied().collect::<Vec<f64>>())),
-                                None,
-                                None,
-                            ),
-                            H::Len => (None, Some(it.len()), None),
-                            H::Hint => (None, None, Some(it.size_hint())),
-                            H::Clone => (None, None, None),
-                        })
-                    });
+                    // collect at most the expected number of elements (+1) so that a non-terminating
+                    // view iterator cannot hang the check
+                    let map = |v: sfs_core::array::view::View<'_, f64>| v.iter().take(n + 1).copied().collect::<Vec<f64>>();
+                    j.drive(
+                        hist,
+                        &expected,
+                        |h| guarded(|| std_call!(it, h, map)),
+                        |kind| guarded(|| rest_by_value!(it.borrow_mut().take().expect("iterator already consumed by value"), kind, map, n + 1)),
+                    );
                 }
                 Op::ViewIter { axis, pos, hist } => {
                     let expected: Vec<f64> = model_view(shape, *axis, *pos).into_iter().map(|f| f as f64).collect();
@@ -485,24 +554,28 @@ impl Prop for C19 {
                         _ => continue, // reported by GetAxis
                     };
                     out.count(&format!("view_iter.{}", rank_class(dims)), 1);
-                    let mut it = view.iter();
+                    let it = std::cell::RefCell::new(Some(view.iter()));
                     let mut j = HistJudge {
                         out: &mut out,
                         iter_name: format!("view_iter({})", rank_class(dims)),
                         detail: format!("shape {shape:?} get_axis({axis},{pos}).iter()"),
                     };
-                    j.drive(hist, &expected, |h| {
-                        guarded(|| match h {
-                            H::Next => (Some(it.next().copied()), None, None),
-                            H::Nth(k) => (Some(it.nth(k).copied()), None, None),
-                            H::Len => (None, Some(it.len()), None),
-                            H::Hint => (None, None, Some(it.size_hint())),
-                            H::Clone => {
-                                it = it.clone();
-                                (None, None, None)
-                            }
-                        })
-                    });
+                    let map = |x: &f64| *x;
+                    j.drive(
+                        hist,
+                        &expected,
+                        |h| {
+                            guarded(|| {
+                                if h == H::Clone {
+                                    let c = it.borrow().as_ref().expect("iterator").clone();
+                                    *it.borrow_mut() = Some(c);
+                                }
+                                std_call!(it, h, map)
+                            })
+                        },
+                        // on a clone: the history goes on with the original afterwards
+                        |kind| guarded(|| rest_by_value!(it.borrow().as_ref().expect("iterator").clone(), kind, map, n + 1)),
+                    );
                 }
                 Op::Freq { hist } => {
                     let expected: Vec<Vec<u64>> = model
@@ -518,29 +591,19 @@ impl Prop for C19 {
                         Ok(Ok(s)) => s,
                         _ => continue,
                     };
-                    let mut it = scs.iter_frequencies();
+                    let it = std::cell::RefCell::new(Some(scs.iter_frequencies()));
                     let mut j = HistJudge {
                         out: &mut out,
                         iter_name: "iter_frequencies".into(),
                         detail: format!("shape {shape:?} iter_frequencies"),
                     };
-                    j.drive(hist, &expected, |h| {
-                        guarded(|| match h {
-                            H::Next => (
-                                Some(it.next().map(|v| v.iter().map(|x| x.to_bits()).collect::<Vec<u64>>())),
-                                None,
-                                None,
-                            ),
-                            H::Nth(k) => (
-                                Some(it.nth(k).map(|v| v.iter().map(|x| x.to_bits()).collect::<Vec<u64>>())),
-                                None,
-                                None,
-                            ),
-                            H::Len => (None, Some(it.len()), None),
-                            H::Hint => (None, None, Some(it.size_hint())),
-                            H::Clone => (None, None, None),
-                        })
-                    });
+                    let map = |v: Vec<f64>| v.iter().map(|x| x.to_bits()).collect::<Vec<u64>>();
+                    j.drive(
+                        hist,
+                        &expected,
+                        |h| guarded(|| std_call!(it, h, map)),
+                        |kind| guarded(|| rest_by_value!(it.borrow_mut().take().expect("iterator already consumed by value"), kind, map, n + 1)),
+                    );
                 }
                 Op::Sum { axis } => {
                     out.evals += 1;
